@@ -1035,6 +1035,17 @@ def brief(c):
     return "\n".join(l for l in c.brief().splitlines() if not l.startswith("split_aggregate"))[:600]
 
 
+def stable_psig(c):
+    """c.panic_sig() keeps the operands of a Cranelift verifier message (hex constants differ from program to program): keep the opcode only"""
+    s = c.panic_sig()
+    if s.startswith("internal|Error defining function"):
+        m = re.search(r"- inst\d+ \(([^\n]*)", c.out + "\n" + c.err)
+        ops = re.findall(r"[a-z_]+(?:\.[a-z]+\d+)?", re.sub(r"\b(?:v|ss|block|fn|inst)\d+\b", " ", m.group(1))) if m else []
+        why = "uses value from non-dominating inst" if "non-dominating" in c.out + c.err else "other"
+        return f"internal|Error defining function|{ops[0] if ops else '?'}|{why}"
+    return s
+
+
 def diags(c):
     return [(m.group(1), int(m.group(2)), int(m.group(3))) for m in DIAG.finditer(c.out)]
 
@@ -1043,7 +1054,7 @@ def observe(case, d):
     """runs both passes; -> observation record (pure data)"""
     o = {"p1": None, "p2": None, "runs": {}, "text2": None, "exp": None, "zeroed": None}
     c1 = compile_retry(os.path.join(d, "p1"), dict(case["extra_files"], **{"main.capy": case["text1"]}))
-    o["p1"] = {"accepted": c1.accepted, "rejected": c1.rejected, "internal": c1.internal_error, "psig": c1.panic_sig() if c1.internal_error else None,
+    o["p1"] = {"accepted": c1.accepted, "rejected": c1.rejected, "internal": c1.internal_error, "psig": stable_psig(c1) if c1.internal_error else None,
                "watchdog": bool(c1.timed_out or c1.cpu_exceeded or c1.sig in EXTERNAL_SIGNALS), "diags": diags(c1), "brief": brief(c1)}
     if o["p1"]["watchdog"]:
         return o
@@ -1065,7 +1076,7 @@ def observe(case, d):
     else:
         d2 = os.path.join(d, "p2")
         c2 = compile_retry(d2, dict(case["extra_files"], **{"main.capy": text2}))
-    o["p2"] = {"accepted": c2.accepted, "rejected": c2.rejected, "internal": c2.internal_error, "psig": c2.panic_sig() if c2.internal_error else None,
+    o["p2"] = {"accepted": c2.accepted, "rejected": c2.rejected, "internal": c2.internal_error, "psig": stable_psig(c2) if c2.internal_error else None,
                "watchdog": bool(c2.timed_out or c2.cpu_exceeded or c2.sig in EXTERNAL_SIGNALS), "diags": diags(c2), "brief": brief(c2)}
     if c2.accepted:
         exe, err = R.link(d2, c2.obj)
@@ -1360,12 +1371,12 @@ def replay(path):
 def replay_recorded(case, wit, d):
     o = {"p1": None, "p2": None, "runs": {}, "text2": wit["files"].get("pass2.capy"), "exp": wit.get("exp"), "zeroed": wit.get("zeroed", case["pred_undef"])}
     c1 = compile_retry(os.path.join(d, "p1"), dict(case["extra_files"], **{"main.capy": case["text1"]}))
-    o["p1"] = {"accepted": c1.accepted, "rejected": c1.rejected, "internal": c1.internal_error, "psig": c1.panic_sig() if c1.internal_error else None,
+    o["p1"] = {"accepted": c1.accepted, "rejected": c1.rejected, "internal": c1.internal_error, "psig": stable_psig(c1) if c1.internal_error else None,
                "watchdog": bool(c1.timed_out or c1.cpu_exceeded), "diags": diags(c1), "brief": brief(c1)}
     if o["text2"] is None or o["exp"] is None:
         return o
     c2 = compile_retry(os.path.join(d, "p2"), dict(case["extra_files"], **{"main.capy": o["text2"]}))
-    o["p2"] = {"accepted": c2.accepted, "rejected": c2.rejected, "internal": c2.internal_error, "psig": c2.panic_sig() if c2.internal_error else None,
+    o["p2"] = {"accepted": c2.accepted, "rejected": c2.rejected, "internal": c2.internal_error, "psig": stable_psig(c2) if c2.internal_error else None,
                "watchdog": bool(c2.timed_out or c2.cpu_exceeded), "diags": diags(c2), "brief": brief(c2)}
     if c2.accepted:
         exe, err = R.link(os.path.join(d, "p2"), c2.obj)
